@@ -103,7 +103,27 @@ class W2:
         node.set_attribute('z', False)
 
 
+import enum as _enum
+
+
+class E(_enum.Enum):
+    alpha = 1
+    beta = 'two'
+
+
+class SE(str, _enum.Enum):
+    low = 'l'
+    high = 'HIGH'
+
+
+class IE(_enum.IntEnum):
+    zero = 0
+    one = 1
+
+
 def jproj(v):
+    if isinstance(v, _enum.Enum):
+        return v.name           # enum members are written by name
     if isinstance(v, W):
         return {'name': v.name, 'payload': jproj(v.payload), 'q': None, 'n': 5, 'f': 2.5, 't': True, 's': 'null'}
     if isinstance(v, W2):
@@ -178,7 +198,7 @@ def strings_of(v):
         for k, x in v.items():
             yield from strings_of(k)
             yield from strings_of(x)
-    elif isinstance(v, (W, W2)):
+    elif isinstance(v, (W, W2, _enum.Enum)):
         yield from strings_of(jproj(v))
 
 
@@ -219,10 +239,11 @@ def rand_value(rnd, pool, depth):
 
 def tie(ctx, model_ok=True):
     import yatiml
-    dumps = yatiml.dumps_json_function(W, W2)
+    dumps = yatiml.dumps_json_function(W, W2, E, SE, IE)
     rep = dumps.dumper(None, None, False, None, None, None, None, None, None, None, None, None, None, False)
     vals, nex = gen_values(ctx)
     # nodes written by sweeten functions through the Node API
+    vals += [E.alpha, SE.low, IE.zero, [E.beta, SE.high, IE.one], {'k': SE.low, 'l': [IE.zero]}, W('a', SE.high)]
     vals += [W('a'), W2('x'), [W('a'), W('b', [None, W2('c')])], {'k': W('a', {'x': None}), 'l': [W2('')]}, W('', W('in', 1.5))]
     indents = [None, 0, 1, 2, 3, 4, 5, 6, 7, 8]
     res = {'evaluations': 0, 'disagreements': [], 'failing': [], 'samples': [], 'exhaustive': True,
@@ -273,7 +294,7 @@ def tie(ctx, model_ok=True):
         except RuntimeError:
             aborted = True
         res['evaluations'] += 1
-        for fn_name, fn in (('same function', dumps), ('new function', yatiml.dumps_json_function(W, W2))):
+        for fn_name, fn in (('same function', dumps), ('new function', yatiml.dumps_json_function(W, W2, E, SE, IE))):
             for p, b in zip(probes, before):
                 try:
                     now = fn(p)
@@ -299,8 +320,8 @@ def search(ctx, broken, details, tie_res):
 
 def replay(case):
     import yatiml
-    dumps = yatiml.dumps_json_function(W, W2)
-    v = eval(case['value'], {'datetime': datetime, 'inf': math.inf, 'nan': math.nan, 'W': W, 'W2': W2})
+    dumps = yatiml.dumps_json_function(W, W2, E, SE, IE)
+    v = eval(case['value'], {'datetime': datetime, 'inf': math.inf, 'nan': math.nan, 'W': W, 'W2': W2, 'E': E, 'SE': SE, 'IE': IE})
     if case.get('after_abort'):
         want = dumps(v)
         shared = [1, 2]
@@ -308,7 +329,7 @@ def replay(case):
             dumps({'a': shared, 'b': shared})
         except RuntimeError:
             pass
-        return dumps(v) != want or yatiml.dumps_json_function(W, W2)(v) != want
+        return dumps(v) != want or yatiml.dumps_json_function(W, W2, E, SE, IE)(v) != want
     text = dumps(v, indent=case['indent'], ensure_ascii=case['ensure_ascii'])
     o = oracle(v, case['indent'], case['ensure_ascii'], text)
     if o:
